@@ -5,6 +5,24 @@ import "time"
 var _ = time.Second
 
 func init() {
+	reg("C05", propCfg{
+		index: 5,
+		rule: "(a) verdict: every acyclic dependency graph on 2 and 3 services x edge kind {argument, field, call argument, !tagged through a tag, decorator-on-tag with a dependency} x every assignment of {unset, shared, contextual, non_shared} (thorough: additionally rapid-sampled graphs on 3..4 services with mixed edge kinds): rejected in the Scope step iff a declared-shared service reaches a declared-contextual one, and the reported (shared, contextual) pairs equal the model's. (b) behaviour: scope-heavy accepted configurations with a rapid-drawn history of 2..8 Get / GetInContext(A|B) / GetTaggedBy operations; the DI interpreter predicts the partition of all object occurrences into instances (shared: one per container; non_shared: fresh per injection and per Get; contextual: one per Get call tree or attached context, never across contexts; unset: contextual iff it transitively reaches a declared contextual service), compared with instance serial numbers modulo a bijection. Non-trivial = (a) a graph with at least one edge and a shared or contextual declaration, (b) a contextual or non_shared service referenced by another service and a history of >= 2 operations; distinct by hash",
+		assume: []string{"cyclic graphs belong to C07 and are not enumerated here"},
+	})
+	reg("C04", propCfg{
+		index: 4,
+		rule: "cases are accepted configurations from a tag-heavy behavioural generator (2..6 services sharing up to 3 tags, priorities from a small set with ties, negative and minimal values, several tags per service, 1..4 decorators with every argument form, consumers using !tagged in arguments, fields and calls, split over 1..3 files so that decorator and tag order is file order). The probe asks for every service and GetTaggedBy of every tag. Oracle: the DI interpreter predicts the injected slices (exactly the tagged services, priority descending then name ascending), each element's own build, and the decorator chain (after the service's calls, declaration order, payload tag/service name/current object followed by declared arguments, result replaces the service). Non-trivial = a tag shared by >= 2 services with a priority tie or a negative priority, or >= 2 decorators applying to one service; distinct by hash of (files, style, script)",
+		assume: []string{"decorator tag * is not used behaviourally (the pinned runtime gives it no meaning)"},
+	})
+	reg("C02", propCfg{
+		index: 2,
+		rule: "cases are accepted configurations from the behavioural generator (acyclic service graphs, every creation method, every argument form of the resolver chain at every position, fields, calls, withers, pointer and value receivers, scopes, todo services and failing constructors with dependants, 1..2 files), each compiled and linked with the real runtime; a probe asks for every parameter, service and tag. Oracle: a DI interpreter written from the documentation predicts for every result the descriptor tree {origin, package, arguments in order, fields, call log, wither/decorator chain} and which results must be errors; descriptors are compared modulo a bijection of instance serial numbers. Non-trivial = a service with two arguments of different forms, or fields and calls, or a wither; distinct by hash of (files, style, script)",
+		assume: []string{
+			"package-level pointer values (GlobalObj, Holder.Field) get no fields/calls in generated configurations because they are shared by all containers of a probe process",
+			"literals compare by Go type and value, NaN = NaN, the sign of zero is not claimed",
+		},
+	})
 	reg("C16", propCfg{
 		index: 16,
 		rule: "cases are configurations carrying any mix of {dangling parameters, dangling services, cycles, scope conflicts, grammar/token defects, none}: all 32 subsets on a fixed base and rapid-generated valid configurations with 0..4 injected defects; each case is run under all four combinations of --ignore-missing-params / --ignore-missing-services. Oracle: (model) the reference verdict and fact set under each flag combination; (metamorphic) the parsed fact set under flags F equals the unflagged fact set with exactly the ignored classes removed, cycle lines unchanged, accepted iff nothing remains, the step table marks exactly the switched-off rules as ignored, and an accepted configuration yields byte-identical output under all four. Non-trivial = an ignorable defect together with a defect of another class, or an accepted configuration compared across all four combinations; distinct by hash of (configuration, style)",
